@@ -22,6 +22,29 @@ def replay():
 
 
 def replay_from_json(d):
+    if (d.get('replay') or {}).get('which') == 'clash':
+        r = replay_clash()
+        print(r['detail'])
+        return 1 if r['replayed'] else 0
     r = replay()
     print(r['detail'])
     return 1 if r['replayed'] else 0
+
+
+def run_clash():
+    out, _, rc, err = native.run('name_clash', timeout=60)
+    if rc != 0:
+        raise RuntimeError('native name_clash failed: ' + err[-300:])
+    bad = []
+    for k in ('regular_refused', 'thread_local_refused', 'thread_local_instant_refused', 'still_refused_afterwards'):
+        if out.get(k) != '1':
+            bad.append('a_spawn_under_a_held_name_is_refused: %s=%s' % (k, out.get(k)))
+    for k in ('holder_after_regular', 'holder_after_thread_local', 'holder_after_thread_local_instant'):
+        if out.get(k) != '1':
+            bad.append('a_name_clash_changes_nothing_about_the_holder: %s=%s' % (k, out.get(k)))
+    return {'observed': out, 'violated': bad}
+
+
+def replay_clash():
+    r = run_clash()
+    return {'replayed': bool(r['violated']), 'detail': 'native spawns under a held name (regular, thread-local, thread-local instant): %s' % r, 'replay': {'scenario': 'name_clash', 'prop': 'C10', 'which': 'clash'}}
